@@ -300,7 +300,7 @@ def arith_pool():
     mixed = Scalar.CreateWithQuantity(Quantity.CreateDerived(OrderedDict([("length", ["m", 1]), ("diameter", ["cm", 1])])), 1.0)
     mixed2 = Scalar.CreateWithQuantity(Quantity.CreateDerived(OrderedDict([("length", ["m", 1]), ("diameter", ["m", 1])])), 2.0)
     return {
-        "simple": [m, cm, km, s, mn, d],
+        "simple": [m, cm, km, s, mn, d, Scalar(20.0, "degC"), Scalar(300.0, "K"), Scalar(50.0, "degF")],
         "derived1": [m * m, cm * cm, cm * cm * cm, Scalar(1.0, "m") / (s * s) * Scalar(1.0, "s") * Scalar(1.0, "s") / m / m, km * km],
         "derived2": [m / s, cm / mn, km * s, cm * d, m * mn, s * cm, mn * km, Scalar(1.0, "s") / cm * Scalar(1.0, "m") * Scalar(1.0, "m"), mixed, mixed2],
         "empty": [Scalar.CreateEmptyScalar(3.0)],
@@ -319,17 +319,18 @@ def arith(h):
     for x in var:
         if x in ops:
             opn = x
-        elif x in ("simple", "derived1", "derived2", "empty", "float", "int", "npfloat"):
+        elif x in ("simple", "derived1", "derived2", "empty", "float", "int", "npfloat", "npfloat32"):
             kinds.append(x)
     todo = [opn] if opn else ["add", "sub", "mul", "truediv"]
     if h.get("function") in names:
         todo = [names[h["function"]]]
     pool = arith_pool()
-    nums = {"float": [2.5], "int": [3], "npfloat": []}
+    nums = {"float": [2.5], "int": [3], "npfloat": [], "npfloat32": []}
     try:
         import numpy
 
         nums["npfloat"] = [numpy.float64(2.5)]
+        nums["npfloat32"] = [numpy.float32(2.5), numpy.int64(3), numpy.array([4, 5])[0], numpy.uint8(2)]
     except Exception:
         pass
     ka = kinds[0] if kinds else None
@@ -343,6 +344,9 @@ def arith(h):
             for b in Bs:
                 if not isinstance(a, Scalar) and not isinstance(b, Scalar):
                     continue
+                affine = any(isinstance(x, Scalar) and any(u in str(x.GetUnit()) for u in ("degC", "degF")) for x in (a, b))
+                if affine and not (o in ("add", "sub") and isinstance(a, Scalar) and isinstance(b, Scalar) and not a.GetQuantity().IsDerived() and not b.GetQuantity().IsDerived()):
+                    continue  # products / powers of offset units have no physical reading (C04 speaks of scale-only units)
                 ma, da = magnitude(a) if isinstance(a, Scalar) else (float(a), {})
                 mb, db_ = magnitude(b) if isinstance(b, Scalar) else (float(b), {})
                 call = "%r %s %r" % (a, o, b)
@@ -368,6 +372,13 @@ def arith(h):
                 if not isinstance(r, Scalar):
                     return {"reproduced": True, "call": call, "observed": repr(r), "expected": "a Scalar"}
                 mr, dr = magnitude(r)
+                if o in ("add", "sub") and isinstance(a, Scalar) and isinstance(b, Scalar) and not a.GetQuantity().IsDerived() and not b.GetQuantity().IsDerived() and a.GetQuantityType() == b.GetQuantityType():
+                    # simple operands of one quantity type (offset units included): b re-expressed in a's unit
+                    dbq = a.GetUnitDatabase()
+                    exp_v = ops[o](a.GetValue(), dbq.Convert(a.GetQuantityType(), b.GetUnit(), a.GetUnit(), b.GetValue()))
+                    if r.GetUnit() != a.GetUnit() or not close(r.GetValue(), exp_v, 1e-9):
+                        return {"reproduced": True, "call": call, "observed": repr(r), "expected": "%r [%s]" % (exp_v, a.GetUnit())}
+                    continue
                 if o in ("add", "sub"):
                     if da != db_ and da and db_:
                         return {"reproduced": True, "call": call, "observed": repr(r), "expected": "InvalidOperationError"}
@@ -1842,7 +1853,9 @@ def _history_run(names):
     n = _history_prelude()
     for rnd in range(2):
         for name in names:
-            r = PROBES[name]({})
+            # (the one recorded finding of the registration histories - AddUnit before AddUnitBase, C14 - is not
+            # a history effect and is left to its own property)
+            r = PROBES[name]({"ignore_unit_before_base": True} if name == "registry_history" else {})
             if r.get("reproduced"):
                 r["call"] = "after a prelude of %d legal calls (unknown-quantity values asked for real units, failed lookups, unit matching with several exponents, validity queries) and %d earlier probes: %s" % (n, rnd * len(names), r.get("call"))
                 r["evaluations"] = n
@@ -1865,4 +1878,4 @@ def history_arithmetic(h):
 @probe("history_all")
 def history_all(h):
     """BOUNDED: queries, conversions, arithmetic, validity after a history (C15)"""
-    return _history_run(["pure_queries", "scalar_getvalue", "db_lookup", "convert_exp", "arith", "array_powers", "validity", "obtain", "construct_forms"])
+    return _history_run(["registry_history", "pure_queries", "scalar_getvalue", "db_lookup", "convert_exp", "arith", "array_powers", "validity", "obtain", "construct_forms"])
